@@ -167,7 +167,7 @@ def rule_r2(ctx: Ctx) -> None:
 
 # ------------------------------------------------------------------------------------------------ R1 / R3 / R4
 TYPE_KINDS = ["BOOL", "UINT8", "UINT_OTHER", "SINT8", "SINT_OTHER", "FLOAT", "OTHER"]
-VALUE_KINDS = ["BOOLEAN", "RAT_INT", "RAT_FRAC", "STR1", "STR_OTHER", "NONPRIM"]
+VALUE_KINDS = ["BOOLEAN", "RAT_INT", "RAT_FRAC", "STR1", "STR_OTHER", "STR_UNENCODABLE", "NONPRIM"]
 POSITIONS = ["BELOW", "AT_MIN", "INSIDE", "AT_MAX", "ABOVE"]
 
 _TYPE_IS = {
@@ -182,10 +182,10 @@ _TYPE_IS = {
     "SerializableType": set(TYPE_KINDS),
 }
 _VALUE_IS = {
-    "Primitive": {"BOOLEAN", "RAT_INT", "RAT_FRAC", "STR1", "STR_OTHER"},
+    "Primitive": {"BOOLEAN", "RAT_INT", "RAT_FRAC", "STR1", "STR_OTHER", "STR_UNENCODABLE"},
     "Boolean": {"BOOLEAN"},
     "Rational": {"RAT_INT", "RAT_FRAC"},
-    "String": {"STR1", "STR_OTHER"},
+    "String": {"STR1", "STR_OTHER", "STR_UNENCODABLE"},
     "Any": set(VALUE_KINDS),
     "Set": set(),
     "Container": set(),
@@ -264,6 +264,10 @@ def rule_r1(ctx: Ctx) -> None:
 
     def atomize(e: Any) -> Any:
         if isinstance(e, tuple):
+            if e[0] == "except" and e[1].split(".")[-1] in ("UnicodeEncodeError", "UnicodeError", "ValueError"):
+                body = " ".join(norm(x) for x in e[3])
+                if "value.native_value.encode(" in body:
+                    return A("ENC_FAIL")  # the string cannot be encoded (lone surrogate)
             raise AnalysisError("unexpected control marker %r in Constant.__init__" % (e[0],))
         if isinstance(e, ast.Call) and dotted(e.func) == "isinstance":
             r = classify_is(e)
@@ -302,6 +306,8 @@ def rule_r1(ctx: Ctx) -> None:
             return (st.tk if parts[1] == "T" else st.vk) in kinds
         if parts[0] == "IS_INTEGER":
             return st.vk == "RAT_INT"
+        if parts[0] == "ENC_FAIL":
+            return st.vk == "STR_UNENCODABLE"
         if parts[0] == "LEN1":
             one = st.vk == "STR1"
             return {"Eq": one, "NotEq": not one}.get(parts[1], None) if parts[1] in ("Eq", "NotEq") else _bad(name)
